@@ -152,6 +152,8 @@ def run(tier, seed, t0):
     import c13, c05
     jobs += [lambda: c13.g1_ob("is_on_curve", 1, c13.chk_on_curve, "is_on_curve")]
     jobs += [(lambda k=k: c05.ob_kdf(64, k, crate=CRATE, fname="kdf")) for k in (8160, 8161)]     # one-byte counter boundary of the KDF
+    import c12, c13_l4
+    jobs += [c13_l4.ob_point_mul, lambda: c13.g1_ob("point_add", 2, c13.chk_add, "point_add"), lambda: c13.g1_ob("point_double", 1, c13.chk_dbl, "point_double")] + c12.jobs_for(tier)
     res = run_parallel(jobs, nproc=14)
     return finish("C17", tier, seed, "model_checking", res, t0,
                   assumptions=["pairing and group layers uninterpreted (C12/C13); identities of 5 and 3 bytes (the framing is length-agnostic concatenation)", "klen >= 1 (klen = 0 is outside the property; see C20)",
